@@ -1,6 +1,6 @@
 (* Props/C16.v — property theorems only. *)
 From Coq Require Import Arith ZArith.
-From YQ Require Import Base.Str Model.Node Model.Store Model.Eval Spec.Lens Proofs.DeleteProofs Proofs.PathProofs.
+From YQ Require Import Base.Str Model.Node Model.Store Model.Eval Spec.Lens Proofs.DeleteProofs Proofs.PathProofs Proofs.AssignPathProofs Proofs.PathEvalProofs.
 
 (* On a well-keyed document (what every decoder produces: each sequence child
    records its actual index, keys unique), for every node reachable at a
@@ -32,6 +32,16 @@ Theorem C16_parent_holds : forall doc q i m,
   /\ exists par, deref (init_store doc) (O, q) = Some par /\ nth_error (children par) i = Some m.
 Proof. exact parent_holds. Qed.
 Print Assumptions C16_parent_holds.
+
+(* Through the evaluator: the node reached by traversing any simple path p (keys and index literals mixed, any
+   length) of a well-keyed document reports p itself -- `p | path` = p *)
+Theorem C16_path_of_traversal : forall p doc fuel pos,
+  p <> [] -> Forall step_ok p -> (length p + 3 <= fuel)%nat -> wk doc ->
+  resolvep p doc = Some pos ->
+  exists q st', eval fuel (EPipe (pe p) EPath) true [] [(O, [])] (init_store doc) = Ok ([q], st')
+                /\ deref st' q = Some (path_node (List.map pelem_of p)).
+Proof. exact path_of_traversal. Qed.
+Print Assumptions C16_path_of_traversal.
 
 (* delete keeps a sequence well-keyed (survivors renumbered) *)
 Theorem C16_delete_keeps_well_keyed : forall items victim pos kept,
